@@ -350,6 +350,13 @@ class Lexer:
         func_object = None
         if jmc_decorator.is_save_to_datapack:
             func_object = pre_function.parse()
+            if pre_function.func_path in self.datapack.functions:
+                raise JMCSyntaxException(
+                    f"Duplicate function declaration({pre_function.func_path})",
+                    pre_function.self_token,
+                    tokenizer,
+                    suggestion="A function declared inside this function has the same path",
+                )
             self.datapack.functions[pre_function.func_path] = func_object
         decorator = jmc_decorator(tokenizer, command, self.datapack, prefix, args)
         decorator.modify(pre_function, func_object)
@@ -503,6 +510,13 @@ class Lexer:
         )
         return_value = pre_function.parse()
         if is_save_to_datapack:
+            if pre_function.func_path in self.datapack.functions:
+                raise JMCSyntaxException(
+                    f"Duplicate function declaration({pre_function.func_path})",
+                    pre_function.self_token,
+                    tokenizer,
+                    suggestion="A function declared inside this function has the same path",
+                )
             self.datapack.functions[pre_function.func_path] = return_value
         return return_value, pre_function.func_path
 
@@ -688,7 +702,9 @@ class Lexer:
                 command[2],
                 tokenizer,
             )
-        if json_path.startswith(DataPack.private_name + "/"):
+        if json_path.startswith(DataPack.private_name + "/") or json_name.startswith(
+            DataPack.private_name + "/"
+        ):
             raise JMCSyntaxException(
                 f"JSON({json_path}) may override private function of JMC",
                 command[2],
@@ -699,6 +715,13 @@ class Lexer:
         logger.debug(f"JSON: {json_type}({json_path})")
         json_content = command[-1].string
         if json_path in self.datapack.jsons:
+            if json_path not in self.datapack.defined_file_pos:
+                raise JMCSyntaxException(
+                    f"Duplicate JSON({json_path})",
+                    command[2],
+                    tokenizer,
+                    suggestion="This json was already generated by a built-in function",
+                )
             old_json_token, old_json_tokenizer = self.datapack.defined_file_pos[
                 json_path
             ]
